@@ -107,6 +107,16 @@ func (x *executor) runOps(task int, ops []Op) {
 	for i := range ops {
 		op := &ops[i]
 		simrt.Note(simrt.YOpBoundary, uint64(task)<<32|uint64(i))
+		if simrt.TimersArmed() {
+			// The caller lets time pass between two calls: while the library has timers
+			// armed, every fourth operation boundary is a pause of a millisecond to ten
+			// minutes (a function of the world, no tape decision), so that what the library
+			// scheduled for later happens in the middle of the history and not only at its
+			// end. Without timers nothing happens here (the pinned library arms none).
+			if h := hashSeed(x.w.Seed, 77, uint64(task), uint64(i)); (h>>16)%4 == 0 {
+				simrt.TimeSleep([]time.Duration{time.Millisecond, time.Second, 10 * time.Second, 10 * time.Minute}[(h>>24)%4])
+			}
+		}
 		if op.Kind == "gc" {
 			simrt.PoolGC()
 			continue
@@ -399,6 +409,7 @@ func Execute(w *World, tape *simrt.Tape, gold []*Golden, onFatal func(int, strin
 		"timers-armed-by-the-library":             res.Stats.Timers,
 		"timers-fired":                            res.Stats.TimerFires,
 		"stalls-while-timers-armed":               res.Stats.Stalls,
+		"library-tasks-abandoned-at-the-end":      res.Stats.Abandoned,
 		"waits-on-a-context-channel":              res.Stats.Polls,
 		"schemas-sharing-type-objects-judged":     x.sharedJudged,
 		"schemas-sharing-type-objects-not-judged": x.sharedSkipped,
